@@ -11,17 +11,21 @@ Definition w_cancel_h2 : list event := [EPeerReply PReturn 0 1; ERead; EBlock 0;
 
 Lemma cancel_silent_refuted : ~ C17_cancel_silent_full_statement.
 Proof.
-  intros H. specialize (H w_cancel_h1 w_cancel_h2 0%nat).
-  assert (A : (0 < length (call_serials (trace w_cancel_h1)))%nat) by (vm_compute; lia).
-  assert (B : count_complete 0 (trace w_cancel_h1) = 0%nat) by (vm_compute; reflexivity).
-  specialize (H A B). vm_compute in H. destruct H as [H _]. discriminate.
+  intros H. specialize (H 1 w_cancel_h1 w_cancel_h2 0%nat).
+  assert (V : valid_base 1) by (unfold valid_base, two32; lia).
+  assert (A : (0 < length (call_serials (trace_at 1 w_cancel_h1)))%nat) by (vm_compute; lia).
+  assert (B : count_complete 0 (trace_at 1 w_cancel_h1) = 0%nat) by (vm_compute; reflexivity).
+  specialize (H V A B). vm_compute in H. destruct H as [H _]. discriminate.
 Qed.
 
 (* F17.3: send, the timeout fires, cancel, dispatch (the error goes to the filters), block: NULL timeout_link *)
 Definition w_fault : list event := [ESend true true; EFire 0; ECancel 0; EDispatch; EBlock 0].
 
 Lemma no_fault_refuted : ~ C17_no_fault_full_statement.
-Proof. intros H. specialize (H w_fault). vm_compute in H. discriminate. Qed.
+Proof.
+  intros H. assert (V : valid_base 1) by (unfold valid_base, two32; lia).
+  specialize (H 1 w_fault V). vm_compute in H. discriminate.
+Qed.
 
 Lemma fault_witness_is_null_link : fault (fst (run init w_fault)) = 1.
 Proof. vm_compute. reflexivity. Qed.
@@ -56,7 +60,7 @@ Proof. induction k; simpl; auto. Qed.
 Lemma w_close_never k : count_complete 0 (trace1 (settled w_close k)) = 0%nat.
 Proof.
   destruct k as [|[|k]]; [vm_compute; reflexivity|vm_compute; reflexivity|].
-  unfold trace1, settled.
+  unfold trace1, trace1_at, settled. change (init_at 1) with init.
   change (w_close ++ ERead :: repeat EDispatch (S (S k))) with ((w_close ++ [ERead; EDispatch; EDispatch]) ++ repeat EDispatch k).
   rewrite run1_app. fold w_close_dead.
   destruct (run1 init (w_close ++ [ERead; EDispatch; EDispatch])) as [s1 o1] eqn:E.
@@ -68,10 +72,11 @@ Qed.
 
 Lemma close_completes_refuted : ~ C17_close_completes_full_statement.
 Proof.
-  intros H. specialize (H w_close).
-  assert (A : nowrap w_close) by (vm_compute; reflexivity).
+  intros H. specialize (H 1 w_close).
+  assert (V : valid_base 1) by (unfold valid_base, two32; lia). specialize (H V).
+  assert (A : nowrap_at 1 w_close) by (vm_compute; reflexivity).
   assert (B : closes w_close) by (left; simpl; auto).
-  assert (C : (0 < length (call_serials (trace1 w_close)))%nat) by (vm_compute; lia).
+  assert (C : (0 < length (call_serials (trace1_at 1 w_close)))%nat) by (vm_compute; lia).
   assert (D : ~ In (ECancel 0) w_close) by (simpl; intros [H1|[H1|[]]]; discriminate).
-  destruct (H A B 0%nat C D) as [k Hk]. rewrite w_close_never in Hk. discriminate.
+  destruct (H A B 0%nat C D) as [k Hk]. change (trace1_at 1 (settled w_close k)) with (trace1 (settled w_close k)) in Hk. rewrite w_close_never in Hk. discriminate.
 Qed.
